@@ -60,6 +60,12 @@ def cases(tier, seed, ctx=None):
     for d in deco:
         for size in (-1, 10):
             yield ("range", [1, d, size], "str-deco")
+    # object history: query, assign a range of different validity / bounds, query again
+    hist = [(0, 4, 10), (8, 2, 10), (-3, -1, 10), (5, -1, -1), (12, 20, 10), (0, 0, 0), (3, 3, 10), (-20, -1, 10), (2, 1, -1)]
+    for a in hist:
+        for b in hist:
+            for fl in range(4):
+                yield ("range", [4, a[0], a[1], a[2], b[0], b[1], b[2], fl], "assign-after-query")
     # copy / resize / assign
     for f in range(-4, 6):
         for t in range(-2, 6):
